@@ -129,6 +129,32 @@ def strategy(tier):
                      _sdeint_case(tier))
 
 
+def enumerate_cases(tier):
+    """Systematic part: every tolerance of the generator (powers of ten and others) x {dyadic BrownianInterval,
+    BrownianTree, ordinary tree} x queries placed inside one cell of the library's rounding grid with lengths below, at and
+    above tol - the region where 'shorter than tol' and 'collapses at resolved times' differ."""
+    import os
+    import random
+    seed = int(os.environ.get("VERIF_SEED", "1") or 1)
+    idx = 0
+    for tol in sorted(set(history.TOLS)):
+        for wrapper, halfway in (("interval", True), ("tree", True), ("interval", False)):
+            idx += 1
+            rnd = random.Random(seed * 5003 + idx)
+            nd = history.ndigits_of(tol)
+            cell = 10.0 ** -nd
+            cfg = {"wrapper": wrapper, "t0": 0.0, "t1": 1.0, "shape": [2], "levy": "none", "entropy": rnd.randrange(2 ** 31),
+                   "dtype": "float64", "cache_size": 45, "dt": None, "tol": tol, "halfway": halfway, "user_W": False,
+                   "user_H": False, "grid": 100}
+            ops = []
+            for _ in range(8):
+                c = round(rnd.uniform(0.05, 0.95), nd)
+                x, y = rnd.choice([0.0, 0.1, 0.3, 0.45]), rnd.choice([0.05, 0.2, 0.4, 0.45])
+                ops.append(["raw", max(0.0, c - x * cell), min(1.0, c + y * cell)])
+                ops.append(["raw", c, min(1.0, c + tol * rnd.choice([0.3, 0.9, 1.0, 1.5, 2.5]))])
+            yield {"kind": "history", "cfg": cfg, "ops": ops}
+
+
 class _Guard:
     """Run the enclosed Brownian calls under a tight recursion limit and a node budget."""
 
